@@ -29,7 +29,7 @@ where
 impl<V> Node<V> {
     /// Insert a new item into this node
     pub fn insert(mut self, regex: &str, id: String, item: V) -> Item<V> {
-        let mut max_prefix_size = self.regex.original.len() as u32;
+        let mut max_prefix_size = self.regex.original.chars().count() as u32;
         let prefix_size = common_prefix_char_size(regex, self.regex.original.as_str());
 
         if prefix_size < max_prefix_size {
